@@ -89,7 +89,10 @@ def run_all(tier, variant='fast', Ws=(1, 3), use_cache=True):
                 if W != Ws[0] and len(data) < 50 and mode == '':
                     continue
                 argv = ['lbzip2', '-n%d' % W, '-%d' % lv] + ([mode] if mode else [])
-                cases.append({'argv': argv, 'stdin': data, 'save': True})
+                # every other multi-worker run writes to an output that takes at most 4093 bytes per write()
+                # (a pipe with a slow reader); the bytes written must be the same
+                wf = 4093 if (W != Ws[0] and len(cases) % 2 == 0 and len(data) <= 400000) else 0
+                cases.append({'argv': argv, 'stdin': data, 'save': True, 'wfrag': wf})
                 meta.append({'name': name, 'level': lv, 'mode': mode, 'W': W, 'in_len': len(data),
                              'in_sha': hashlib.sha1(data).hexdigest()})
     res = lbzx.batch(variant, cases, outdir=od, timeout=300)
